@@ -308,8 +308,7 @@ class SimOracle(object):
                         continue
                     callers = [(q.pid, q.prio) for q in self.procs if q is not p and q.cur is not None
                                and q.cur.name == "ppre" and q.cur.obj == name]
-                    if name in self.ppre_in_event and self.ppre_in_event[name][0] != p.pid:
-                        callers.append(self.ppre_in_event[name])
+                    callers += [c for c in self.ppre_in_event.get(name, ()) if c[0] != p.pid]
                     if (g < lo or robbed) and callers:
                         # a victim of a preemption in this event
                         cpid, cprio = max(callers, key=lambda c: c[1])
@@ -608,7 +607,7 @@ class SimOracle(object):
                 c.n = int(args[1])
                 c.base = p.pool.get(c.obj, 0)
                 if name == "ppre":
-                    self.ppre_in_event[c.obj] = (pid, p.prio)
+                    self.ppre_in_event.setdefault(c.obj, []).append((pid, p.prio))
                 if c.base > 0:
                     self.cls("pool-top-up")
             elif name in ("bput", "bget"):
@@ -900,6 +899,10 @@ class SimOracle(object):
             note = self.justify(p, ret)
             self.cls("nonsuccess-" + nm)
         getattr(self, "ret_" + nm)(p, c, ret, outs, blocked, note)
+        # notifications that belong to this wait (its cancellation, the end of what it awaited) die with it
+        for n in p.notes:
+            if not n.delivered and n.kind in ("ccancel", "procend", "evcancel"):
+                n.dead = True
         p.cur = None
 
     # each ret_* applies the model effects and the per-op oracles
@@ -1012,6 +1015,9 @@ class SimOracle(object):
     def ret_pacq(self, p, c, ret, outs, blocked, note):
         pl = c.obj
         held_now = int(outs[0].split("=")[1])
+        if c.name == "ppre":
+            # it may have robbed somebody in this event before returning
+            self.ppre_in_event.setdefault(pl, []).append((p.pid, p.prio))
         if ret == SUCCESS:
             want = c.base + c.n
             if c.completion is not None and c.completion[0] == "preempted-from":
